@@ -55,6 +55,8 @@ type Obs struct {
 	OpErr       string // error of an operator action
 
 	Presented []Presented
+	raters    []func() Presented
+	Replay    bool // the very same request as this browser's previous one, sent again
 	// target account as resolved (-1 unknown)
 	Acct int
 }
@@ -145,6 +147,8 @@ func (w *World) rowsSnapshot() map[string]*Row {
 
 type lastReq struct {
 	method, path, rawq, body, ctype string
+	step                            Step
+	raters                          []func() Presented
 }
 
 func (w *World) mountPath(p string) string { return w.Cfg.Mount + p }
@@ -281,7 +285,10 @@ func (w *World) Exec(n int, st *Step) *Obs {
 		path = mp("/login")
 		fields[w.pidField()] = w.pidOf(st.A, st)
 		fields["password"] = secVal
-		o.Presented = append(o.Presented, w.ratePassword(st.A, secVal))
+		{
+			pidv := fields[w.pidField()]
+			o.raters = append(o.raters, func() Presented { return w.ratePassword(pidv, secVal) })
+		}
 		if st.RM {
 			fields["rm"] = "true"
 		}
@@ -291,7 +298,10 @@ func (w *World) Exec(n int, st *Step) *Obs {
 		path = mp("/otp/login")
 		fields[w.pidField()] = w.pidOf(st.A, st)
 		fields["password"] = secVal
-		o.Presented = append(o.Presented, w.rate("otp", "otp", secVal))
+		{
+			v := secVal
+			o.raters = append(o.raters, func() Presented { return w.rate("otp", "otp", v) })
+		}
 		if st.RM {
 			fields["rm"] = "true"
 		}
@@ -313,7 +323,10 @@ func (w *World) Exec(n int, st *Step) *Obs {
 	case "recover_end_get":
 		method, path, hasBody = "GET", mp("/recover/end"), false
 		q.Set("token", secVal)
-		o.Presented = append(o.Presented, w.rate("token", "recover", secVal))
+		{
+			v := secVal
+			o.raters = append(o.raters, func() Presented { return w.rate("token", "recover", v) })
+		}
 	case "recover_end":
 		path = mp("/recover/end")
 		fields["token"] = secVal
@@ -321,7 +334,10 @@ func (w *World) Exec(n int, st *Step) *Obs {
 		if _, ok := fields["confirm_password"]; !ok {
 			fields["confirm_password"] = sec2Val
 		}
-		o.Presented = append(o.Presented, w.rate("token", "recover", secVal))
+		{
+			v := secVal
+			o.raters = append(o.raters, func() Presented { return w.rate("token", "recover", v) })
+		}
 	case "confirm":
 		method, path = w.mailMethod(), mp("/confirm")
 		if m := st.str("method"); m != "" {
@@ -333,7 +349,10 @@ func (w *World) Exec(n int, st *Step) *Obs {
 		} else {
 			fields["cnf"] = secVal
 		}
-		o.Presented = append(o.Presented, w.rate("token", "confirm", secVal))
+		{
+			v := secVal
+			o.raters = append(o.raters, func() Presented { return w.rate("token", "confirm", v) })
+		}
 	case "totp_setup":
 		path = mp("/2fa/totp/setup")
 	case "totp_setup_get":
@@ -361,7 +380,10 @@ func (w *World) Exec(n int, st *Step) *Obs {
 		} else {
 			fields["token"] = secVal
 		}
-		o.Presented = append(o.Presented, w.rate("token", "everify", secVal))
+		{
+			v := secVal
+			o.raters = append(o.raters, func() Presented { return w.rate("token", "everify", v) })
+		}
 	case "oauth2_start":
 		method, path, hasBody = "GET", mp("/oauth2/"+st.str("provider")), false
 		if st.RM {
@@ -374,7 +396,10 @@ func (w *World) Exec(n int, st *Step) *Obs {
 		method, path, hasBody = "GET", mp("/oauth2/callback/"+st.str("provider")), false
 		q.Del("redir")
 		state := secVal
-		o.Presented = append(o.Presented, w.rate("state", "state", state))
+		{
+			v := state
+			o.raters = append(o.raters, func() Presented { return w.rate("state", "state", v) })
+		}
 		if st.str("nostate") == "" {
 			q.Set("state", state)
 		}
@@ -408,8 +433,18 @@ func (w *World) Exec(n int, st *Step) *Obs {
 		if lr == nil {
 			return w.finishNonHTTP(o)
 		}
-		o.Presented = nil
-		o.Step = st
+		orig := lr.step
+		if orig.Str != nil {
+			orig.Str = copyMap(orig.Str)
+			if orig.Str["code"] == "fresh" {
+				orig.Str["code"] = "replay"
+			}
+		}
+		orig.Gap = st.Gap
+		o.Step = &orig
+		o.Replay = true
+		o.Acct = orig.A
+		o.raters = lr.raters
 		return w.doRequest(o, st, lr.method, lr.path, lr.rawq, lr.body, lr.ctype)
 	case "raw":
 		return w.doRequest(o, st, st.str("method"), st.str("path"), st.str("rawquery"), st.str("body"), st.str("ctype"))
@@ -437,9 +472,11 @@ func (w *World) idpUser(st *Step) IdPUser {
 	return IdPUser{Provider: st.str("provider"), UID: uid, Email: uid + "@idp.example"}
 }
 
-func (w *World) ratePassword(a int, v string) Presented {
+// ratePassword rates a password against the hash stored for the account the
+// request names (independent bcrypt call, not through the library's hasher).
+func (w *World) ratePassword(pid string, v string) Presented {
 	p := Presented{Role: "password", Value: v}
-	if cur, ok := w.KB.Password[a]; ok && cur == v {
+	if row := w.DB.rows[pid]; row != nil && pwMatches(row.Password, v) {
 		p.Status = "valid"
 	}
 	return p
@@ -452,22 +489,30 @@ func (w *World) codeFields(o *Obs, st *Step, fields map[string]string, secVal st
 	switch st.Sec.Kind {
 	case "recovery":
 		fields["recovery_code"] = secVal
-		o.Presented = append(o.Presented, w.rate("recovery", "recovery", secVal))
+		{
+			v := secVal
+			o.raters = append(o.raters, func() Presented { return w.rate("recovery", "recovery", v) })
+		}
 	case "empty":
 	default:
 		role := "code"
 		if st.str("as") == "recovery" {
 			fields["recovery_code"] = secVal
-			o.Presented = append(o.Presented, w.rate("recovery", "recovery", secVal))
+			{
+				v := secVal
+				o.raters = append(o.raters, func() Presented { return w.rate("recovery", "recovery", v) })
+			}
 			return
 		}
 		fields["code"] = secVal
-		p := w.rate(role, "sms", secVal)
-		p.TOTP = map[int]string{}
-		for a, sec := range w.KB.TOTPSecret {
-			p.TOTP[a] = totpVerdict(sec, secVal, time.Now())
-		}
-		o.Presented = append(o.Presented, p)
+		o.raters = append(o.raters, func() Presented {
+			p := w.rate(role, "sms", secVal)
+			p.TOTP = map[int]string{}
+			for a, sec := range w.KB.TOTPSecret {
+				p.TOTP[a] = totpVerdict(sec, secVal, time.Now())
+			}
+			return p
+		})
 	}
 }
 
@@ -542,7 +587,10 @@ func (w *World) execOperator(o *Obs, st *Step, secVal string) *Obs {
 func (w *World) doRequest(o *Obs, st *Step, method, path, rawq, body, ctype string) *Obs {
 	br := w.Browsers[st.B]
 	if st.Kind != "replay" {
-		br.last = &lastReq{method, path, rawq, body, ctype}
+		br.last = &lastReq{method: method, path: path, rawq: rawq, body: body, ctype: ctype, step: *st, raters: o.raters}
+	}
+	for _, f := range o.raters {
+		o.Presented = append(o.Presented, f())
 	}
 	o.IsHTTP = true
 	o.Method, o.ReqBody = method, body
